@@ -112,7 +112,7 @@ struct Runner {
 	// dump one container in canonical form and check it against its twin
 	std::string dump(MM& mm, const Twin& tw) {
 		std::ostringstream o;
-		o << "n=" << mm.GetCount() << " kc=" << mm.GetKeyCount() << " ";
+		o << "n=" << mm.GetCount() << " kc=" << mm.GetKeyCount() << " v=" << mm.mValueCrew.mData->valueVersion << " ";
 		struct Rec { int tag; std::string repr; std::vector<i64> vals; };
 		std::map<int, Rec> recs;
 		size_t sum = 0, nkeys = 0;
@@ -447,13 +447,15 @@ static std::string run_case_inner(const std::vector<std::string>& ops) {
 			int var = a.empty() ? 0 : (int)(a[0] % 4);
 			if (var == 1) { MM tmp(std::move(oth)); cur.Swap(tmp); } else cur = std::move(oth);
 			// the moved-from container: a client may clear it, query it, assign to it or just let it die
-			if (var == 2) {
-				oth.Clear();
-				if (oth.GetCount() != 0 || !oth.IsEmpty() || !(oth.GetBegin() == oth.GetEnd())) R.oracle_fail("moved-from container not empty after Clear");
-			}
+			if (!oth.mValueCrew.IsNull()) R.oracle_fail("moved-from container still has a crew");
+			if (var == 2) oth.Clear();
+			size_t dn = oth.GetCount(), dk = oth.GetKeyCount(), dt = 0;
+			for (auto itx = oth.GetBegin(); itx != oth.GetEnd(); ++itx) ++dt;
+			if (!oth.IsEmpty() || !oth.mValueCrew.IsNull()) R.oracle_fail("moved-from container not empty / revived by Clear");
+			ret << "ok:dead(" << dn << "," << dk << "," << dt << ")";
 			if (var == 3) { MM fresh; oth = fresh; }                    // copy assignment into the moved-from container
 			else oth = MM();                                            // move assignment into it
-			tc = to; to.m.clear(); ret << "ok"; both = true; break; }
+			tc = to; to.m.clear(); both = true; break; }
 		case 'L': {   // construct from an initializer list (0..3 pairs) and move-assign: cur = MM{...}
 			std::vector<std::pair<KEY, V>> ps;
 			for (size_t q = 0; q + 2 < a.size(); q += 3) ps.push_back(std::make_pair(MK((int)a[q], (int)a[q + 1]), C::enc(a[q + 2])));
